@@ -1,17 +1,153 @@
 package main
 
 import (
+	"encoding/json"
 	"fmt"
-	"sort"
 	"go/types"
+	"os"
+	"os/exec"
+	"path/filepath"
+	"sort"
 	"strings"
+	"sync"
 
 	"golang.org/x/tools/go/ssa"
 )
 
 var devHooks = map[string]func(p *Prog, fnPat, untr string) int{}
 
-func runThorough(pr *propertyRunner, p *Prog, r *Report) {}
+type stMutant struct {
+	ID          string   `json:"id"`
+	Property    string   `json:"property"`
+	ExpectRules []string `json:"expect_rules"`
+	File        string   `json:"file"`
+	Note        string   `json:"note"`
+}
+
+// runThorough: quick tier plus (a) the self-test mutants of the property — each is applied to a scratch copy of the
+// repository's current working tree (outside /repo and /verif, removed afterwards), re-analysed in a child process,
+// and must make the expected rule fire; (b) a second load of the property's packages with the build tags
+// `debug` and `prover_checks`, which must still type-check (coverage of build-tagged files).
+func runThorough(pr *propertyRunner, p *Prog, r *Report) {
+	b, err := os.ReadFile(filepath.Join(verifDir, "selftest", "mutants.json"))
+	if err != nil {
+		r.Fail("UNRESOLVED", "-", "-", "selftest/mutants.json", "-", err.Error())
+		return
+	}
+	var mf struct {
+		Mutants []stMutant `json:"mutants"`
+	}
+	if err := json.Unmarshal(b, &mf); err != nil {
+		r.Fail("UNRESOLVED", "-", "-", "selftest/mutants.json", "-", err.Error())
+		return
+	}
+	var mine []stMutant
+	for _, m := range mf.Mutants {
+		if m.Property == pr.id {
+			mine = append(mine, m)
+		}
+	}
+	self, _ := os.Executable()
+	type res struct {
+		m      stMutant
+		status string // detected | missed | skipped
+		fired  []string
+		detail string
+	}
+	results := make([]res, len(mine))
+	sem := make(chan struct{}, 3)
+	var wg sync.WaitGroup
+	for i, m := range mine {
+		wg.Add(1)
+		go func(i int, m stMutant) {
+			defer wg.Done()
+			sem <- struct{}{}
+			defer func() { <-sem }()
+			scratch, err := os.MkdirTemp("", "gnarklint-selftest-")
+			if err != nil {
+				results[i] = res{m: m, status: "skipped", detail: err.Error()}
+				return
+			}
+			defer os.RemoveAll(scratch)
+			repoCopy := filepath.Join(scratch, "repo")
+			if out, err := exec.Command("rsync", "-a", "--exclude", ".git", repoDir+"/", repoCopy+"/").CombinedOutput(); err != nil {
+				results[i] = res{m: m, status: "skipped", detail: "copy failed: " + string(out)}
+				return
+			}
+			patch := filepath.Join(verifDir, "selftest", "patches", m.ID+".diff")
+			cmd := exec.Command("patch", "-p1", "-s", "-f", "--no-backup-if-mismatch", "-i", patch)
+			cmd.Dir = repoCopy
+			if out, err := cmd.CombinedOutput(); err != nil {
+				results[i] = res{m: m, status: "skipped", detail: "patch no longer applies: " + firstLine(string(out))}
+				return
+			}
+			vdir := filepath.Join(scratch, "verif")
+			os.MkdirAll(filepath.Join(vdir, "evidence"), 0o755)
+			os.Symlink(filepath.Join(verifDir, "rules"), filepath.Join(vdir, "rules"))
+			os.Symlink(filepath.Join(verifDir, "known_findings.json"), filepath.Join(vdir, "known_findings.json"))
+			os.Symlink(filepath.Join(verifDir, "properties.jsonl"), filepath.Join(vdir, "properties.jsonl"))
+			child := exec.Command(self, "-property", pr.id, "-tier", "quick")
+			child.Env = append(os.Environ(), "GNARKLINT_REPO="+repoCopy, "GNARKLINT_VERIF="+vdir)
+			out, _ := child.CombinedOutput()
+			fired := map[string]bool{}
+			for _, line := range strings.Split(string(out), "\n") {
+				if i := strings.Index(line, "violated: rule="); i >= 0 {
+					rest := line[i+len("violated: rule="):]
+					if j := strings.Index(rest, " "); j > 0 {
+						fired[rest[:j]] = true
+					}
+				}
+			}
+			var fl []string
+			for k := range fired {
+				fl = append(fl, k)
+			}
+			sort.Strings(fl)
+			st := "missed"
+			for _, e := range m.ExpectRules {
+				if fired[e] {
+					st = "detected"
+				}
+			}
+			det := ""
+			if fired["UNRESOLVED"] && st == "missed" {
+				det = "only UNRESOLVED fired (mutant may not type-check)"
+			}
+			results[i] = res{m: m, status: st, fired: fl, detail: det}
+		}(i, m)
+	}
+	wg.Wait()
+	nDet, nSkip := 0, 0
+	var summary []map[string]any
+	for _, x := range results {
+		key := "mutant:" + x.m.ID
+		switch x.status {
+		case "detected":
+			nDet++
+			r.Pass("SELFTEST", "-", x.m.File, key, "-", fmt.Sprintf("mutant detected by %v (expected one of %v)", x.fired, x.m.ExpectRules), true)
+		case "skipped":
+			nSkip++
+			r.Add(&Obligation{Rule: "SELFTEST", Pkg: "-", Func: x.m.File, Key: key, Pos: "-", OK: true, Info: true, Detail: "mutant-skipped: " + x.detail})
+		default:
+			r.Fail("SELFTEST", "-", x.m.File, key, "-", fmt.Sprintf("the checker did not detect its own self-test mutant (expected one of %v, fired %v) %s", x.m.ExpectRules, x.fired, x.detail))
+		}
+		summary = append(summary, map[string]any{"id": x.m.ID, "status": x.status, "fired": x.fired, "expect": x.m.ExpectRules})
+	}
+	r.Extra["selftest"] = map[string]any{"mutants": len(mine), "detected": nDet, "skipped": nSkip, "results": summary}
+	// (b) tagged load
+	if tp, err := LoadProg(pr.patterns, "debug,prover_checks", nil); err != nil {
+		r.Fail("UNRESOLVED", "-", "-", "tagged-load", "-", "packages do not type-check with tags debug,prover_checks: "+firstLine(err.Error()))
+	} else {
+		r.Extra["tagged_load"] = map[string]any{"tags": "debug,prover_checks", "packages": len(tp.ByPth), "module_functions": len(tp.Funcs)}
+	}
+}
+
+func firstLine(s string) string {
+	if i := strings.Index(s, "\n"); i >= 0 {
+		return s[:i]
+	}
+	return s
+}
 
 func devMore(p *Prog, mode, fnPat, untr string) int {
 	switch mode {
